@@ -513,20 +513,22 @@ KIND_TOK = {"MissingExpectedRParen": "RPAREN", "MissingExpectedAssign": "ASSIGN"
 def c14_suite():
     """(text with one mandatory delimiter deleted, expected error kind, expected byte offset)"""
     out = []
-    for gap in (" ", "\n", " /*c*/ "):
-        out.append((f"%let a{gap}1;", "MissingExpectedAssign", len(f"%let a{gap}")))
-        out.append((f"%do i{gap}1 %to 3; %end;", "MissingExpectedAssign", len(f"%do i{gap}")))
-        out.append((f"%copy m{gap}source;", "MissingExpectedFSlash", len(f"%copy m{gap}")))
-        out.append((f"%sysmacdelete m{gap}nowarn;", "MissingExpectedFSlash", len(f"%sysmacdelete m{gap}")))
+    # blanks and comments between the construct and the place of the omitted delimiter, incl. whitespace that is
+    # not ASCII whitespace (vertical tab, no-break space, ideographic space) first or alone
+    for gap in (" ", "\n", " /*c*/ ", "\x0b", "\u00a0", "\u3000 ", "\x0b/*c*/"):
+        out.append((f"%let a{gap}1;", "MissingExpectedAssign", len(f"%let a{gap}".encode())))
+        out.append((f"%do i{gap}1 %to 3; %end;", "MissingExpectedAssign", len(f"%do i{gap}".encode())))
+        out.append((f"%copy m{gap}source;", "MissingExpectedFSlash", len(f"%copy m{gap}".encode())))
+        out.append((f"%sysmacdelete m{gap}nowarn;", "MissingExpectedFSlash", len(f"%sysmacdelete m{gap}".encode())))
         for kw in ("%end", "%return"):
-            out.append((f"{kw}{gap}x = 1;", "MissingExpectedSemiOrEOF", len(f"{kw}{gap}")))
+            out.append((f"{kw}{gap}x = 1;", "MissingExpectedSemiOrEOF", len(f"{kw}{gap}".encode())))
         for kw in ("%while", "%until"):
-            out.append((f"%do {kw}(&i<3){gap}x;", "MissingExpectedSemiOrEOF", len(f"%do {kw}(&i<3){gap}")))
+            out.append((f"%do {kw}(&i<3){gap}x;", "MissingExpectedSemiOrEOF", len(f"%do {kw}(&i<3){gap}".encode())))
         for b in ARG_BUILTINS:
-            out.append((f"%{b}{gap}a)", "MissingExpectedLParen", len(f"%{b}{gap}")))
+            out.append((f"%{b}{gap}a)", "MissingExpectedLParen", len(f"%{b}{gap}".encode())))
     for b in ("scan", "qscan", "kscan", "qkscan", "substr", "qsubstr", "ksubstr", "qksubstr"):
-        out.append((f"%{b}(&a. 1)", "MissingExpectedComma", len(f"%{b}(&a. 1")))
-        out.append((f"%let x=%{b.upper()}( a b /*c*/ 2 );", "MissingExpectedComma", len(f"%let x=%{b.upper()}( a b /*c*/ 2 ")))
+        out.append((f"%{b}(&a. 1)", "MissingExpectedComma", len(f"%{b}(&a. 1".encode())))
+        out.append((f"%let x=%{b.upper()}( a b /*c*/ 2 );", "MissingExpectedComma", len(f"%let x=%{b.upper()}( a b /*c*/ 2 ".encode())))
     for t in ("%eval(1", "%eval((1+2", "%let x=%eval((1+2", "%sysfunc(abs((1", "%upcase((a", "%str((a", "%nrstr(a(b(c", "%m(a", "%scan(a,1", "%if (a", "%do i=(1", "%do i=1 %to (3", "%eval((1 ", "%eval((\"", "%m((\"", "%if (\"", "%str((\""):
         out.append((t, "MissingExpectedRParen", len(t.encode())))
     return out
